@@ -4,19 +4,35 @@ import (
 	"fmt"
 	"go/constant"
 	"go/token"
+	"go/types"
 	"strings"
 
 	"golang.org/x/tools/go/ssa"
 )
 
 // ttlCanon: canonical key name where a non-constant index of a slice element is generalised to [*].
+// sliceBase strips sub-slicing: an element of S[a:b] is an element of S.
+func sliceBase(v ssa.Value) ssa.Value {
+	for {
+		sl, ok := v.(*ssa.Slice)
+		if !ok {
+			return v
+		}
+		if _, isArr := sl.X.Type().Underlying().(*types.Pointer); isArr {
+			return v
+		}
+		v = sl.X
+	}
+}
+
 func ttlCanon(v ssa.Value) string {
 	inner := stripConv(v)
 	if u, ok := inner.(*ssa.UnOp); ok && u.Op == token.MUL {
 		if ia, ok := u.X.(*ssa.IndexAddr); ok {
 			if _, isConst := ia.Index.(*ssa.Const); !isConst {
-				return "elem(" + canon(ia.X) + ")"
+				return "elem(" + canon(sliceBase(ia.X)) + ")"
 			}
+			// a constant index into a sub-slice S[k:][c]: not normalised (rare)
 		}
 	}
 	if ix, ok := inner.(*ssa.Index); ok {
@@ -134,7 +150,7 @@ func (t *ttlAnalysis) sliceElemsChecked(fn *ssa.Function, S ssa.Value) bool {
 					s, live := t.flow(fn).Before(ap)
 					for _, e := range elems {
 						any = true
-						if live && !(s["T|"+ttlCanon(e)] || s["T|"+canon(e)]) {
+						if live && !(s["T|"+ttlCanon(e)] || s["T|"+canon(e)]) && !t.checkedAfter(ap, e) {
 							okAll = false
 						}
 					}
@@ -185,14 +201,14 @@ func (t *ttlAnalysis) checked(fn *ssa.Function, at ssa.Instruction, key ssa.Valu
 	inner := stripConv(key)
 	if u, ok := inner.(*ssa.UnOp); ok {
 		if ia, ok := u.X.(*ssa.IndexAddr); ok {
-			if t.sliceElemsChecked(fn, ia.X) {
+			if t.sliceElemsChecked(fn, sliceBase(ia.X)) {
 				return true, "element of a key slice built only from CheckTTL-ed keys"
 			}
 		}
 	}
 	if u, ok := inner.(*ssa.UnOp); ok {
 		if ia, ok := u.X.(*ssa.IndexAddr); ok {
-			if t.coveredByRangeLoop(fn, at, ia.X) {
+			if t.coveredByRangeLoop(fn, at, sliceBase(ia.X)) {
 				return true, "a preceding range loop over the whole key slice calls CheckTTL on every element"
 			}
 		}
@@ -446,8 +462,12 @@ var rR22 = RuleRef{Name: "R22", Doc: "deadline removal is paired: every db.Delet
 			}
 			if cf := callee(ci); cf == setTTL || cf == delTTL {
 				clear(ttlCanon(ci.Call.Args[1]))
-			} else if cf == checkTTL && checkTTL != nil {
-				// CheckTTL removes key and deadline together when expired; it does not drop a live deadline
+			} else if cf != nil && cf != checkTTL && firstParty(cf) {
+				for _, pi := range c.ttlRemoverParams(cf) {
+					if pi < len(ci.Call.Args) {
+						clear(ttlCanon(ci.Call.Args[pi]))
+					}
+				}
 			}
 			return s, false
 		}
@@ -627,4 +647,107 @@ func (t *ttlAnalysis) coveredByRangeLoop(fn *ssa.Function, at ssa.Instruction, S
 		}
 	}
 	return false
+}
+
+// checkedAfter: every path from the append instruction to the end of the loop iteration (or the function) passes
+// CheckTTL on the appended value (the independent pair "append; CheckTTL" in either order).
+func (t *ttlAnalysis) checkedAfter(ap *ssa.Call, val ssa.Value) bool {
+	want := ttlCanon(val)
+	seen := map[*ssa.BasicBlock]bool{}
+	var scan func(b *ssa.BasicBlock, start int) bool
+	scan = func(b *ssa.BasicBlock, start int) bool {
+		for i := start; i < len(b.Instrs); i++ {
+			if call, ok := b.Instrs[i].(*ssa.Call); ok && callee(call) == t.checkTTL && ttlCanon(call.Call.Args[1]) == want {
+				return true
+			}
+			if _, isRet := b.Instrs[i].(*ssa.Return); isRet {
+				return false
+			}
+		}
+		if len(b.Succs) == 0 {
+			return false
+		}
+		for _, s := range b.Succs {
+			if isLoopHeader(s) && s.Dominates(b) {
+				return false // iteration ends without the check
+			}
+			if seen[s] {
+				continue
+			}
+			seen[s] = true
+			if !scan(s, 0) {
+				return false
+			}
+		}
+		return true
+	}
+	b := ap.Block()
+	for i, in := range b.Instrs {
+		if in == ssa.Instruction(ap) {
+			return scan(b, i+1)
+		}
+	}
+	return false
+}
+
+// ttlRemoverParams: parameters of a memdb helper whose deadline entry is removed (ttlKeys.Delete / DelTTL / SetTTL
+// on that parameter) on every path through the helper.
+func (c *C) ttlRemoverParams(fn *ssa.Function) []int {
+	if fn == nil || fn.Blocks == nil || pkgRel(fn) != "memdb" || fn.Parent() != nil {
+		return nil
+	}
+	if _, isExec := c.Facts.ExecNames[fn]; isExec {
+		return nil
+	}
+	setTTL, delTTL := c.P.Func("memdb", "MemDb.SetTTL"), c.P.Func("memdb", "MemDb.DelTTL")
+	if fn == setTTL || fn == delTTL {
+		return nil
+	}
+	tr := func(in ssa.Instruction, s Set) (Set, bool) {
+		if ci, ok := in.(*ssa.Call); ok {
+			if a := c.keyspaceAccess(ci); a != nil && a.Map == "ttlKeys" && a.Method == "Delete" {
+				s[canon(a.Key)] = true
+			}
+			if cf := callee(ci); cf != nil && (cf == setTTL || cf == delTTL) {
+				s[canon(ci.Call.Args[1])] = true
+			}
+		}
+		return s, false
+	}
+	must := &Flow{Fn: fn, Must: true, Entry: Set{}, Transfer: tr}
+	must.Run()
+	var cand map[int]bool
+	for _, b := range fn.Blocks {
+		if len(b.Instrs) == 0 {
+			continue
+		}
+		ret, ok := b.Instrs[len(b.Instrs)-1].(*ssa.Return)
+		if !ok {
+			continue
+		}
+		s, live := must.Before(ret)
+		if !live {
+			continue
+		}
+		here := map[int]bool{}
+		for f := range s {
+			if pi := paramIndex(fn, f); pi >= 0 {
+				here[pi] = true
+			}
+		}
+		if cand == nil {
+			cand = here
+		} else {
+			for k := range cand {
+				if !here[k] {
+					delete(cand, k)
+				}
+			}
+		}
+	}
+	var out []int
+	for k := range cand {
+		out = append(out, k)
+	}
+	return out
 }
